@@ -1,16 +1,11 @@
 import EaselModel.Msafile.StoRoundTrip
 /-! Stockholm / Pfam `#=GS <seqname> WT <weight>`: what the round trip will need of the token `printf("%.2f")` prints for a
-    weight (NOT yet used by `StoAnn`, which still demands `hasw = false`): the predicate `wgtTokOk` and a simple sufficient
-    condition, "finite and not negative". -/
+    weight (`wgtTokOk`, the `gs_val` clause of kind 0 in `StoAnn`): a simple sufficient condition, "finite and not negative"; and
+    `gsOrderOk_of_hasw`: with weights the first `#=GS` kind is `WT`, which covers every sequence. -/
 namespace EaselModel.Msafile
 
 /-- a binary64 pattern that is neither an infinity nor a NaN -/
 def finiteF64 (b : UInt64) : Prop := (b.toNat / 2 ^ 52) % 2048 ≠ 2047
-
-/-- the printed weight is one token that `esl_mem_IsReal` accepts, survives on a line, and is not read back by `strtod` as
-    -1.0, the reader's "weight not set" marker -/
-def wgtTokOk (t : Bytes) : Prop :=
-  nameOk t ∧ memIsReal t = true ∧ (10 : UInt8) ∉ t ∧ t.getLast? ≠ some 13 ∧ strtodIsMinusOne t = false
 
 theorem fmtF2_shape (b : UInt64) (h : finiteF64 b) :
     ∃ ip fp, fmtF2 b = (if b.toNat / 2 ^ 63 == 1 then [45] else []) ++ (ip ++ 46 :: fp) ∧ ip ≠ [] ∧ allDig ip ∧ allDig fp := by
@@ -54,5 +49,15 @@ example : fmtF2 Wgt.dflt.toBits = str "1.00" ∧ wgtTokOk (fmtF2 Wgt.dflt.toBits
   unfold wgtTokOk nameOk; decide +kernel
 /-- … and the hypothesis is needed: -1.0 prints as `-1.00`, which the reader takes for "no weight" -/
 example : fmtF2 Wgt.unset.toBits = str "-1.00" ∧ strtodIsMinusOne (fmtF2 Wgt.unset.toBits) = true := by decide +kernel
+
+/-- with weights, `WT` is the first `#=GS` kind written and it is written for every sequence: the first-mention-order
+    hypothesis holds whatever the (sparse) accessions, descriptions and unparsed tags are -/
+theorem gsOrderOk_of_hasw (m : Msa) (hw : m.hasw = true) : gsOrderOk m := by
+  intro q hq hprev hex i hi
+  obtain ⟨i0, hi0, _⟩ := hex
+  rcases q with _ | q
+  · rw [gsVal_wt m hw i hi]; rfl
+  · have := hprev 0 (by omega) i0 hi0
+    rw [gsVal_wt m hw i0 hi0] at this; cases this
 
 end EaselModel.Msafile
